@@ -359,6 +359,12 @@ def end_to_end(ctx):
             r = U.run_script(worlds[wk], src)
             if not r.compiled:
                 raise RuntimeError('generated script does not compile: %r %r' % (src, r.errors))
+            if r.errors and mode == 'rgb' and 'division by zero' in r.errors[0] and max(color[:3]) <= 0 and min(color[:3]) < 0:
+                # colorsys.rgb_to_hsv divides by the largest component: known finding D62 (KNOWN_FINDINGS.txt)
+                ctx.counterexample('C07/rgb-no-positive-component-divides-by-zero',
+                                   'rgb units with no positive and at least one negative component (%r): %s' % (list(color[:3]), r.errors[0][:120]),
+                                   {'script': src, 'world': wk, 'errors': r.errors})
+                continue
             if r.errors:
                 ctx.counterexample('C07/script-aborted', 'a script that only sets registers and issues commands is aborted: %s; script %r'
                                    % (r.errors[0][:200], src), {'script': src, 'world': wk, 'errors': r.errors})
